@@ -300,6 +300,11 @@ func (g *sgen) stream(id int, faults bool) {
 		case 9:
 			if faults && cid != "" {
 				call := []string{"read", "write", "writev", "epoll_ctl_ModRead", "epoll_ctl_ModReadWrite", "epoll_ctl_Delete", "close"}[g.r.Intn(7)]
+				if g.hasDup && call == "epoll_ctl_Delete" {
+					// a failing EPOLL_CTL_DEL together with a duplicate the user keeps leaves a poller entry that no
+					// close(2) removes any more: not generated (DESIGN.md, section 8, observations)
+					call = "epoll_ctl_ModRead"
+				}
 				errno := []string{"ECONNRESET", "EPIPE", "ETIMEDOUT", "EBADF", "ENOMEM", "EINVAL", "EAGAIN", "EIO"}[g.r.Intn(8)]
 				g.emit(fmt.Sprintf("inject %s %s errno %s", call, cid, errno))
 			}
